@@ -340,7 +340,7 @@ pub fn build_real(size: u32, null_checksum: bool, reqs: &[ReqSpec], lost: (u32, 
 pub fn run(ctx: &mut Ctx) {
     ctx.rule = "puppet sender vs real receiver: {file transfer, requests-only} x {Modular, Null} x 6 request lists (none, append, create+append, rename+create, append+failing delete+not performed, mkdir+create+append) x \
 every single late PDU and every ordered pair out of {Metadata, EOF, Prompt(NAK), Prompt(keep-alive), each data segment} delivered 200 ms after completion x ACK(Finished) sent or never x deferred/immediate NAK (exhaustive); \
-the same with 1..5 stragglers at sampled moments of the whole Finished/ACK wait (incl. the millisecond of completion, of each Finished retransmission and of the ACK); real sender vs real receiver: sizes {0, 40, 100} x checksum x request lists x ACK(EOF), Finished, ACK(Finished) each lost 0/1/2 times (27 combinations, exhaustive) x 2 NAK procedures. \
+the same with 1..5 stragglers at sampled moments of the whole Finished/ACK wait (incl. the millisecond of completion, of each Finished retransmission and of the ACK; in one of four the receiver ignores the ACK-limit fault and no ACK ever comes); real sender vs real receiver: sizes {0, 40, 100} x checksum x request lists x ACK(EOF), Finished, ACK(Finished) each lost 0/1/2 times (27 combinations, exhaustive) x 2 NAK procedures. \
 plus the same handshake losses with one bit of the file data flipped on a link without CRC (the receiver fails at finalisation with delivery code Complete; the sender must not report success). Non-trivial = at least one PDU other than ACK(Finished) reached the receive transaction between its first success and its end; distinct by scenario."
         .into();
     ctx.assumptions = vec![
@@ -437,7 +437,14 @@ plus the same handshake losses with one bit of the file data flipped on a link w
             _ => 100 + rng.below(6500),
         };
         let nak = if rng.chance(1, 2) { NakSpec { immediate: false, delay_ms: 0 } } else { NakSpec { immediate: true, delay_ms: *rng.pick(&[0u64, 50]) } };
-        build_puppet_timed(with_file, null, &reqs, &late, Some(&times), ack_fin, Some(ack_at), nak, rng.next())
+        let mut c = build_puppet_timed(with_file, null, &reqs, &late, Some(&times), ack_fin, Some(ack_at), nak, rng.next());
+        // one in four: the receiver is configured to ignore the positive-ACK limit fault (and possibly the inactivity fault) and
+        // the ACK(Finished) never comes: the limit is reached, the fault ignored, the wait goes on - the delivery stays what it was
+        if rng.chance(1, 4) {
+            c.sc.entities[1].cfg.handlers = if rng.chance(1, 2) { vec![(1, 2)] } else { vec![(1, 2), (8, 2)] };
+            c.sc.actions.retain(|a| !matches!(&a.kind, ActionKind::Inject { bytes, .. } if kind_of(&PDU::decode(&mut bytes.as_slice()).ok()) == Kind::AckFin));
+        }
+        c
     });
     // the receiver holds every byte but the delivery fails at finalisation (no CRC on the link, one bit of the file data flipped,
     // modular checksum): its Finished PDU carries the fault with delivery code Complete - the sender must not turn that into a success
